@@ -1312,6 +1312,9 @@ class DocutilsRenderer(RendererProtocol):
         bibliofields = get_language(language_code).bibliographic_fields
 
         for key, value in data.items():
+            if not isinstance(key, str):
+                # YAML keys can be any scalar (e.g. bytes from !!binary)
+                key = str(key)
             if not isinstance(value, str | int | float | date | datetime):
                 try:
                     value = json.dumps(value, default=str)
